@@ -82,11 +82,8 @@ def shard(ctx: Ctx) -> None:
         for fname in g.FLAVOURS:
             for cls, vals in enumerated_cases(fname):
                 k += 1
-                try:
-                    text = check_single(fname, cls.__name__, vals)
-                    stt.case(text + "|" + fname, True, ["enum"])
-                except Failure as f:
-                    ctx.fail(f)
+                if ctx.attempt({"kind": "instr", "flavour": fname, "cls": cls.__name__, "vals": vals}, check_single, fname, cls.__name__, vals):
+                    stt.case(str([cls.__name__, vals]) + "|" + fname, True, ["enum"])
         stt.exhaustive_domains["all classes x field-distinguishing valuations"] = k
 
 
